@@ -65,3 +65,10 @@ package epubdoc
 //@   count closed: Close() when true
 //@   ensures handle_released: !isnil(r.zr) ==> closed == 1
 //@   ensures nothing_to_close: isnil(r.zr) ==> closed == 0 && !err
+
+// ---- C18: hrefs are resolved relative to the package file: the base is the DIRECTORY of the OPF path ("" at the root) ----
+//@ func parseOPF results (pkg, base, err)
+//@   property C18
+//@   flags nosafety
+//@   ensures base_is_the_directory_of_the_package_file: !err ==> base == (path.Dir(opfPath) == "." ? "" : path.Dir(opfPath))
+//@   ensures spine_is_not_empty: !err ==> !isnil(pkg) && len(pkg.Spine) > 0
